@@ -23,7 +23,11 @@ func stTags() uint32 {
 }
 
 // stDoc: {_id: <id>, a?: X, b?: Y}
+// pfx distinguishes the symbolic arguments of a second operation from those of the first
+var pfx string
+
 func stDoc(id string, withID bool, idv int32) bson.D {
+	id = pfx + id
 	d := bson.D{}
 	if withID {
 		d = append(d, bson.E{Key: "_id", Value: idv})
@@ -189,6 +193,16 @@ type opOutcome struct {
 	err      error
 	res      *Result
 	expected bsonkit.List // model of the post-state document list when the call succeeds (nil: not modelled)
+	multi    bool         // multi-item call: items fail individually, the call itself succeeds
+	bulk     []Result
+	inserted bsonkit.Doc
+}
+
+// runOp2 performs a second document write with its own symbolic arguments.
+func runOp2(txn *Transaction, kind int) opOutcome {
+	pfx = "second."
+	defer func() { pfx = "" }()
+	return runOpKind(txn, kind)
 }
 
 const (
@@ -204,10 +218,13 @@ const (
 	opDrop
 	opClean
 	opExpire
+	opInsertMany
+	opBulk
 	opAll
 )
 
 func stFilter(id string) bson.D {
+	id = pfx + id
 	switch vf.Choice(id+".kind", 3) {
 	case 0:
 		return bson.D{}
@@ -218,6 +235,7 @@ func stFilter(id string) bson.D {
 }
 
 func stUpdate(id string) bson.D {
+	id = pfx + id
 	switch vf.Choice(id+".kind", 4) {
 	case 0:
 		return bson.D{{Key: "$set", Value: bson.D{{Key: "a", Value: vf.Value(id+".v", "", 2, stTags(), 1)}}}}
@@ -240,10 +258,15 @@ func runOp(txn *Transaction) opOutcome {
 			kind = vf.Choice("op", opCount)
 		}
 	}
+	return runOpKind(txn, kind)
+}
+
+func runOpKind(txn *Transaction, kind int) opOutcome {
 	out := opOutcome{kind: kind}
 	switch kind {
 	case opInsert:
-		d := stDoc("new", vf.Bool("new.hasID"), vf.Int32("new.id"))
+		d := stDoc("new", vf.Bool(pfx+"new.hasID"), vf.Int32(pfx+"new.id"))
+		out.inserted = &d
 		out.res, out.err = txn.Insert(hMain, bsonkit.List{&d}, true)
 		if out.err == nil && out.res.Error != nil {
 			out.err = out.res.Error
@@ -261,7 +284,7 @@ func runOp(txn *Transaction) opOutcome {
 	case opDelete:
 		q := stFilter("q")
 		limit := 0
-		if vf.Bool("one") {
+		if vf.Bool(pfx + "one") {
 			limit = 1
 		}
 		out.res, out.err = txn.Delete(hMain, &q, nil, 0, limit)
@@ -282,6 +305,24 @@ func runOp(txn *Transaction) opOutcome {
 		txn.Clean(vf.Choice("cl.min", 3), vf.Choice("cl.max", 3), 0, time.Hour)
 	case opExpire:
 		out.err = txn.Expire()
+	case opInsertMany:
+		// two documents, ordered or not; each may fail on its own (duplicate _id or unique key)
+		d1 := stDoc("m1", vf.Bool("m1.hasID"), vf.Int32("m1.id"))
+		d2 := stDoc("m2", vf.Bool("m2.hasID"), vf.Int32("m2.id"))
+		out.res, out.err = txn.Insert(hMain, bsonkit.List{&d1, &d2}, vf.Bool("ordered"))
+		out.multi = true
+	case opBulk:
+		// a write that succeeds or fails, followed by one that succeeds or fails, in one bulk
+		d1 := stDoc("b1", true, vf.Int32("b1.id"))
+		q, u := stFilter("q"), stUpdate("u")
+		ops := []Operation{{Opcode: Insert, Document: &d1}, {Opcode: Update, Filter: &q, Document: &u}}
+		if vf.Bool("swap") {
+			ops[0], ops[1] = ops[1], ops[0]
+		}
+		results, err := txn.Bulk(hMain, ops, vf.Bool("ordered"))
+		out.err = err
+		out.multi = true
+		out.bulk = results
 	}
 	return out
 }
